@@ -135,6 +135,11 @@ func (w *World) Env(extra ...string) []string {
 		"GOWORK=off",
 		"GONOSUMDB=*",
 		"LANG=C",
+		// cmd/go's module index is consulted only for directories whose files are
+		// older than 2 s, and the indexed path reports header parse errors of
+		// build-constraint-excluded files that the go/build path ignores: a real
+		// clock dependency inside the (trusted) loader. Pin the non-indexed path.
+		"GODEBUG=goindex=0",
 	}
 	switch w.Layout {
 	case LayoutMod:
